@@ -389,7 +389,7 @@ def std_summaries():
     P[r'<\[.*\] as Index(?:Mut)?<.*>>::index(?:_mut)?'] = vec_index
     P[r'core::slice::<impl \[.*\]>::iter(?:_mut)?'] = slice_iter
     P[r'<&(?:mut )?(?:Vec<.*>|\[.*\]) as IntoIterator>::into_iter'] = slice_iter
-    P[r'<(?:Vec<.*>|std::ops::Range<usize>|std::vec::IntoIter<.*>|std::slice::Iter<.*>|Enumerate<.*>|Rev<.*>|Skip<.*>|\[.*; \d+\]) as IntoIterator>::into_iter'] = into_iter_owned
+    P[r'<(?:Vec<.*>|std::ops::Range<usize>|std::vec::IntoIter<.*>|std::slice::Iter(?:Mut)?<.*>|Enumerate<.*>|Rev<.*>|Skip<.*>|\[.*; \d+\]) as IntoIterator>::into_iter'] = into_iter_owned
     P[r'<(?:std::slice::Iter(?:Mut)?<.*>|std::ops::Range<usize>|std::vec::IntoIter<.*>|Enumerate<.*>|Rev<.*>|Skip<.*>|std::array::IntoIter<.*>) as Iterator>::next'] = it_next
     P[r'<.* as DoubleEndedIterator>::next_back'] = it_next_back
     P[r'<.* as Iterator>::rev'] = it_rev
